@@ -19,7 +19,7 @@ from typing import Any, Callable
 import z3
 
 from .engine import Interp, PathAbort, PyExc, VCoro, Frame
-from .values import (simp, NONE, IntSeq, Unsupported, V, VBool, VBound, VBytes, VConst, VDict, VFloat,
+from .values import (VSymMap, simp, NONE, IntSeq, Unsupported, V, VBool, VBound, VBytes, VConst, VDict, VFloat,
                      VInt, VList, VObj, VStr, VSuper, VTuple, wrap)
 
 # --------------------------------------------------------------------------- spec functions
@@ -457,7 +457,14 @@ def mk_eq(I: Interp, a: V, b: V) -> Any:
     if isinstance(a, VDict) and isinstance(b, VDict):
         if len(a.items) == 0 and len(b.items) == 0:
             return True
-        raise Unsupported("dict equality")
+        ka = [_concrete_py(k) for k, _ in a.items]
+        kb = [_concrete_py(k) for k, _ in b.items]
+        if _NOCONC not in ka and _NOCONC not in kb:
+            if sorted(map(repr, ka)) != sorted(map(repr, kb)):
+                return False
+            bm = {repr(k): v for k, (_, v) in zip(kb, b.items)}
+            return conj([mk_eq(I, v, bm[repr(k)]) for k, (_, v) in zip(ka, a.items)])
+        raise Unsupported("dict equality with symbolic keys")
     if isinstance(a, VConst) and isinstance(b, VConst):
         return a.py == b.py
     if isinstance(a, VObj) and isinstance(b, VObj):
@@ -674,6 +681,10 @@ def identical(a: V, b: V) -> Any:
 
 
 def contains(I: Interp, container: V, x: V) -> Any:
+    if isinstance(container, VSymMap):
+        return container.has(x)
+    if isinstance(container, VList) and container.member is not None:
+        return container.member(x)
     if isinstance(container, (VTuple, VList)) and getattr(container, "items", None) is not None:
         return disj([mk_eq(I, x, y) for y in container.items])
     if isinstance(container, VList):
@@ -967,6 +978,10 @@ def getitem(I: Interp, base: V, idx: V) -> V:
         return base.at(j)
     if isinstance(base, VDict):
         return dict_get(I, base, idx, raise_key=True)
+    if isinstance(base, VSymMap):
+        if not I.branch(base.has(idx)):
+            I.raise_py(KeyError, "key")
+        return base.get(idx)
     if isinstance(base, VConst):
         py = base.py
         if isinstance(py, (dict, types.MappingProxyType)):
@@ -1158,8 +1173,10 @@ def joined_str(I: Interp, e: ast.JoinedStr, fr: Frame) -> V:
     if concrete:
         return VStr("".join(parts))
     # symbolic strings (C19/C20): plain interpolation of str terms and non-negative ints
-    if all(isinstance(x, str) or (isinstance(x, VStr) and (x.t is not None or x.s is not None))
-           or isinstance(x, VInt) for x in parts) and \
+    if any(isinstance(x, VStr) and x.t is not None for x in parts) and \
+            all(isinstance(x, str) or (isinstance(x, VStr) and (x.t is not None
+                                                                  or x.s is not None))
+                or isinstance(x, VInt) for x in parts) and \
             all(p.format_spec is None and p.conversion == -1
                 for p in e.values if isinstance(p, ast.FormattedValue)):
         ts = []
@@ -1329,7 +1346,7 @@ def _pack_repeat(I: Interp, fmt: VStr, vals: list[V]) -> V:
             I, lst.length(),
             lambda j: z3.And(as_int(I, lst.at(j)) >= 0, as_int(I, lst.at(j)) <= 0xFFFF),
             lambda: I.make_exc(struct.error, "'H' format requires 0 <= number <= 65535"))
-        chunks = loops.Chunks(I, lst.length(), 2,
+        chunks = loops.get_chunks(I, lst.length(), 2,
                               lambda j: mk_be(I, as_int(I, lst.at(j)), 2), "packH")
         return VBytes(z3.Concat(head.t, chunks.seq))
     raise Unsupported("computed struct format")
@@ -1434,6 +1451,8 @@ def _len(I: Interp, args: list[V], kwargs: dict[str, V]) -> V:
         return VInt(len(v.items))
     if isinstance(v, VDict):
         return VInt(len(v.items))
+    if isinstance(v, VSymMap):
+        return VInt(v.n)
     if isinstance(v, VStr):
         if v.s is not None:
             return VInt(len(v.s))
@@ -1943,6 +1962,8 @@ def _copy_deepcopy(I: Interp, args: list[V], kwargs: dict[str, V]) -> V:
 
 # --------------------------------------------------------------------------- native methods
 def native_attr(I: Interp, v: V, name: str) -> V:
+    if isinstance(v, VSymMap):
+        return VBound(name, v)
     if isinstance(v, VInt):
         if name in ("to_bytes", "bit_length", "from_bytes"):
             return VBound(name, v)
@@ -2006,6 +2027,19 @@ def native_method(I: Interp, recv: V, name: str, args: list[V], kwargs: dict[str
             I.assume(z3.Implies(ax > 0, z3.And(b >= 1, pow2(b - 1) <= ax, ax < pow2(b))))
             I.assume(z3.Implies(b > 128, P2BIG(b - 1) >= 2 ** 128))
             return VInt(b)
+    if isinstance(recv, VSymMap):
+        if name == "values":
+            return recv.values_list()
+        if name == "keys":
+            return recv.keys_list()
+        if name == "items":
+            return VList(None, recv.n, lambda j: VTuple([recv.key_at(j),
+                                                         recv.get(recv.key_at(j))]))
+        if name == "get":
+            if I.branch(recv.has(args[0])):
+                return recv.get(args[0])
+            return args[1] if len(args) > 1 else NONE
+        raise Unsupported(f"symbolic map method {name}")
     if isinstance(recv, VBytes):
         return strings.bytes_method(I, recv, name, args, kwargs)
     if isinstance(recv, VStr):
